@@ -535,6 +535,11 @@ func (w *vWorld) execCertPolicy(c map[string]interface{}) (map[string]interface{
 				cl.Expiration = authAt + maxAgeSecondsAuthCookie
 				q.Cookies = map[string]string{authCookieName: w.signOurs(cl)}
 			}
+		case "cookie_cli_week":
+			cl := w.goodClaims(norm, AuthTypeWebauthForCLI)
+			cl.NotBefore, cl.IssuedAt = authAt, authAt
+			cl.Expiration = authAt + 7*24*3600
+			q.Cookies = map[string]string{authCookieName: w.signOurs(cl)}
 		case "cookie_upgraded":
 			cl := w.goodClaims(norm, AuthTypePassword)
 			cl.NotBefore, cl.IssuedAt = authAt, authAt
